@@ -174,3 +174,39 @@ CONTRACTS["d3_time.d3_time_month_offset"] = {
     "ensures": [("boundary", "is_month_start(result)"),
                 ("kth_following", "month_index(result) == month_index(date) + offset")],
 }
+
+
+# ---- range(t0, t1, dt): the two loops -------------------------------------------------------------------------------------
+_NUMBER = {"second": "(us(%s) // 1000000) %% 60", "minute": "(us(%s) // 60000000) %% 60", "hour": "(us(%s) %% 86400000000) // 3600000000"}
+for _unit in ("second", "minute", "hour", "day", "week"):
+    L, PH = FIXED[_unit]
+    B_time = "us(time) %% %d == %d" % (L, PH)
+    CONTRACTS["d3_time.d3_time_interval.range@%s_step1" % _unit] = dict(
+        props=["C17", "C16", "C18"], inline=True, setup=interval_setup(_unit), func_alias="d3_time.d3_time_interval.range", heap=True,
+        params={"t0": "dt_ms", "t1": "dt", "dt": "int"}, requires=["in_range_years(t0)", "in_range_years(t1)", "dt == 1"],
+        slist_locals={"times": "slist:dt"}, modifies=["list.len.dt", "list.elems.dt"], allocates=["list"],
+        loops={1: {"modifies": ["list.len.dt", "list.elems.dt"], "locals": {"time": "dt"},
+                   "inv": [("list", "times is not None and len(times) >= 0"),
+                           ("boundary", B_time),
+                           ("arithmetic_progression", "us(time) == us(time__0) + len(times) * %d" % L),
+                           ("elements", "forall(lambda k: implies(0 <= k < len(times), us(times[k]) == us(time__0) + k * %d and us(times[k]) < us(t1)))" % L)]}},
+        ensures=[("first_is_ceil", "us(time__0) %% %d == %d and us(time__0) - %d < us(t0) <= us(time__0)" % (L, PH, L)),
+                 # exactly the boundaries in [t0, t1): consecutive boundaries from the earliest one not before t0 ...
+                 ("consecutive_boundaries", "forall(lambda k: implies(0 <= k < len(result), us(result[k]) == us(time__0) + k * %d and us(result[k]) < us(t1)))" % L),
+                 # ... and none is missing: the next one is not before t1
+                 ("complete", "us(time__0) + len(result) * %d >= us(t1)" % L)])
+    if _unit in _NUMBER:
+        num = _NUMBER[_unit]
+        CONTRACTS["d3_time.d3_time_interval.range@%s_skip" % _unit] = dict(
+            props=["C17", "C16", "C18"], inline=True, setup=interval_setup(_unit), func_alias="d3_time.d3_time_interval.range", heap=True,
+            params={"t0": "dt_ms", "t1": "dt", "dt": "int"}, requires=["in_range_years(t0)", "in_range_years(t1)", "2 <= dt <= 12"],
+            slist_locals={"times": "slist:dt"}, modifies=["list.len.dt", "list.elems.dt"], allocates=["list"],
+            loops={0: {"modifies": ["list.len.dt", "list.elems.dt"], "locals": {"time": "dt"},
+                       "inv": [("list", "times is not None and len(times) >= 0"),
+                               ("boundary", B_time + " and us(time) >= us(time__0)"),
+                               ("elements", "forall(lambda k: implies(0 <= k < len(times), us(times[k]) %% %d == %d and us(time__0) <= us(times[k]) < us(time) "
+                                            "and us(times[k]) < us(t1) and (%s) %% dt == 0))" % (L, PH, num % "times[k]"))]}},
+            # (soundness of the filtered enumeration; its completeness needs an existential witness per boundary: bounded only)
+            ensures=[("listed_are_qualifying_boundaries_in_range",
+                      "forall(lambda k: implies(0 <= k < len(result), us(result[k]) %% %d == %d and us(t0) <= us(result[k]) < us(t1) and (%s) %% dt == 0))"
+                      % (L, PH, num % "result[k]"))])
